@@ -270,10 +270,39 @@ func TestVerifC08Sock(t *testing.T) {
 		for _, l := range labs {
 			l.Wait = time.Duration(1<<(attempt-1)) * 400 * time.Millisecond
 		}
+		if attempt >= 3 {
+			// (the DNSCrypt client data -- certificate, shared key -- are fetched anew for the last attempts)
+			dc.mu.Lock()
+			dc.info = map[string]*dnscrypt.ResolverInfo{}
+			dc.mu.Unlock()
+		}
 		for k := range jobs {
 			if !res[k].Sent {
 				exchange(k)
 			}
+		}
+	}
+	// A query that is still unanswered is followed by a CONTROL on the same transport of the same
+	// laboratory: a small query with a small answer.  If even that gets no reply the laboratory is at fault
+	// (the check then cannot decide); if it does, the silence is the server's answer to the query above.
+	for k := range jobs {
+		if res[k].Sent {
+			continue
+		}
+		ctl := jobs[k]
+		ctl.c.Req = dnsserver.VerifC08Req{}
+		ctl.c.Shape = dnsserver.VerifC08Shape{Kind: "single", Bulk: "an", Fill: "an", HOpt: "none", Target: 60}
+		saved := res[k]
+		jobs = append(jobs, ctl)
+		res = append(res, dnsserver.VerifC08Obs{})
+		exchange(len(jobs) - 1)
+		cres := res[len(res)-1]
+		jobs, res = jobs[:len(jobs)-1], res[:len(res)-1]
+		res[k] = saved
+		if cres.Sent {
+			res[k].Note = strings.TrimSpace(res[k].Note + " control=answered")
+		} else {
+			res[k].Note = strings.TrimSpace(res[k].Note + " control=silent")
 		}
 	}
 	for _, o := range res {
